@@ -1,7 +1,348 @@
-//! C07 — not built yet (stub keeps the registry stable while modules are written in parallel).
+//! C07 — hot-swap after an edit preserves the state of untouched signal paths.
+//!
+//! Voice-bank programs: dsp returns a tuple of channels, channel i is one *voice* (a stateful
+//! function from a small library whose state shapes share no cell shape, so state matching is
+//! never ambiguous).  Histories of run/edit steps; a per-voice model in the harness (the voices'
+//! semantics are fixed by the C02 statement: self / mem / delay) predicts every channel.
 
-use crate::engine::case::Prop;
+use crate::engine::case::*;
+use crate::engine::rng::hash64;
+use crate::engine::tape::Gen;
+use crate::runners::exec::{canon, Inputs};
+use crate::runners::swap::{run_vm_history, run_wasm_history, SwapOut};
+use serde_json::{json, Value};
+
+pub struct C07;
+
+/// WasmDspRuntime::try_hot_swap keeps the old program's channel count (the payload carries no I/O
+/// information), so after an edit that adds or removes a channel get_output returns the old number
+/// of words.  Known finding: with the tolerance on, the common prefix of channels is compared.
+pub const KF_WASM_CHANNELS: &str = "C07-wasm-channel-count-stale";
 
 pub fn prop() -> Option<&'static dyn Prop> {
-    None
+    Some(&C07)
+}
+
+const LIB: &str = "fn v_cnt(a) -> float {\n  self + a\n}\nfn t2(a) -> (float,float) {\n  let (p, q) = self\n  (p + a, q + 1.0)\n}\nfn v_t2(a) {\n  let (p, q) = t2(a)\n  p + q\n}\nfn v_mem(a) {\n  mem(mem(a))\n}\nfn v_d5(a) {\n  delay(5.0, a, 3.0)\n}\nfn v_d9(a) {\n  delay(9.0, a, 6.0)\n}\nfn t3(a) -> (float,float,float) {\n  let (p, q, r) = self\n  (q, r, p + a)\n}\nfn v_n3(a) {\n  let (p, q, r) = t3(a)\n  delay(2.0, p + r, 1.0)\n}\nfn w_cnt(a) {\n  v_cnt(a)\n}\nfn w_t2(a) {\n  v_t2(a)\n}\nfn w_mem(a) {\n  v_mem(a)\n}\nfn w_d5(a) {\n  v_d5(a)\n}\nfn w_d9(a) {\n  v_d9(a)\n}\nfn w_n3(a) {\n  v_n3(a)\n}\n";
+
+const KINDS: [&str; 6] = ["cnt", "t2", "mem", "d5", "d9", "n3"];
+
+/// model of one voice instance
+#[derive(Clone, Debug)]
+struct Voice {
+    kind: usize,
+    c: f64,
+    c_text: String,
+    wrapped: bool,
+    /// channel is no longer predicted (after a wrap edit: the statement does not say whether a
+    /// re-nested site counts as untouched)
+    unchecked: bool,
+    // state
+    s_cnt: f64,
+    s_t2: (f64, f64),
+    s_mem: (f64, f64),
+    hist: Vec<f64>,
+    s_t3: (f64, f64, f64),
+    hist2: Vec<f64>,
+}
+
+impl Voice {
+    fn new(kind: usize, c_text: &str) -> Voice {
+        Voice { kind, c: c_text.parse().unwrap(), c_text: c_text.to_string(), wrapped: false, unchecked: false, s_cnt: 0.0, s_t2: (0.0, 0.0), s_mem: (0.0, 0.0), hist: vec![], s_t3: (0.0, 0.0, 0.0), hist2: vec![] }
+    }
+    fn reset(&mut self) {
+        let n = Voice::new(self.kind, &self.c_text);
+        let (w, u) = (self.wrapped, self.unchecked);
+        *self = n;
+        self.wrapped = w;
+        self.unchecked = u;
+    }
+    fn delay(h: &mut Vec<f64>, x: f64, d: usize) -> f64 {
+        let k = h.len();
+        let y = if k >= d { h[k - d] } else { 0.0 };
+        h.push(x);
+        y
+    }
+    /// one sample; `t` is the sample index (now)
+    fn step(&mut self, t: u64) -> f64 {
+        let a = (t as f64) * 0.1 + self.c;
+        match self.kind {
+            0 => {
+                self.s_cnt += a;
+                self.s_cnt
+            }
+            1 => {
+                let (p, q) = self.s_t2;
+                self.s_t2 = (p + a, q + 1.0);
+                self.s_t2.0 + self.s_t2.1
+            }
+            2 => {
+                // mem(mem(a)): inner mem returns its previous input, outer likewise
+                let inner_prev = self.s_mem.0;
+                self.s_mem.0 = a;
+                let outer_prev = self.s_mem.1;
+                self.s_mem.1 = inner_prev;
+                outer_prev
+            }
+            3 => Voice::delay(&mut self.hist, a, 3),
+            4 => Voice::delay(&mut self.hist, a, 6),
+            _ => {
+                let (p, q, r) = self.s_t3;
+                self.s_t3 = (q, r, p + a);
+                let (p2, _q2, r2) = self.s_t3;
+                Voice::delay(&mut self.hist2, p2 + r2, 1)
+            }
+        }
+    }
+    fn expr(&self) -> String {
+        let f = if self.wrapped { format!("w_{}", KINDS[self.kind]) } else { format!("v_{}", KINDS[self.kind]) };
+        format!("{f}(now * 0.1 + {})", self.c_text)
+    }
+}
+
+fn program(vs: &[Voice], broken: Option<&str>) -> String {
+    let body = vs.iter().map(|v| v.expr()).collect::<Vec<_>>().join(", ");
+    let ret = format!("({})", vec!["float"; vs.len()].join(","));
+    match broken {
+        None => format!("{LIB}fn dsp() -> {ret} {{\n  ({body})\n}}\n"),
+        Some("syntax") => format!("{LIB}fn dsp() -> {ret} {{\n  ({body}\n}}\n"),
+        Some(_) => format!("{LIB}fn dsp() -> {ret} {{\n  ({body}, v_cnt((1.0, 2.0)) + \"s\")\n}}\n"),
+    }
+}
+
+#[derive(Clone, Debug)]
+struct Step {
+    src: String,
+    run: u64,
+    /// expected channels per sample (None = not predicted)
+    expect: Vec<Vec<Option<f64>>>,
+    edit: String,
+    fault: bool,
+}
+
+const CONSTS: [&str; 5] = ["0.5", "1.0", "0.25", "2.0", "0.125"];
+
+fn history(g: &mut Gen) -> (Vec<Step>, Vec<String>) {
+    let mut labels = vec![];
+    let k = g.int(2, 4) as usize;
+    let perm = g.perm(KINDS.len());
+    let mut vs: Vec<Voice> = perm.iter().take(k).map(|kind| Voice::new(*kind, *g.pick(&CONSTS[..]))).collect();
+    let mut steps = vec![];
+    let mut t = 0u64;
+    let nsteps = g.int(2, 5) as usize;
+    let mut src = program(&vs, None);
+    let mut edit = "start".to_string();
+    let mut fault = false;
+    for si in 0..nsteps {
+        let run = g.int(1, 8) as u64;
+        let mut expect = vec![];
+        for _ in 0..run {
+            expect.push(vs.iter_mut().map(|v| { let y = v.step(t); if v.unchecked { None } else { Some(y) } }).collect());
+            t += 1;
+        }
+        steps.push(Step { src: src.clone(), run, expect, edit: edit.clone(), fault });
+        if si + 1 == nsteps {
+            break;
+        }
+        // choose the next edit
+        let present: Vec<usize> = vs.iter().map(|v| v.kind).collect();
+        let absent: Vec<usize> = (0..KINDS.len()).filter(|k| !present.contains(k)).collect();
+        let choice = g.weighted(&[if vs.len() < 4 && !absent.is_empty() { 3 } else { 0 }, if vs.len() > 2 { 3 } else { 0 }, if absent.is_empty() { 0 } else { 3 }, 2, 2, 2]);
+        fault = false;
+        match choice {
+            0 => {
+                let pos = g.usize_below(vs.len() + 1);
+                let kind = *g.pick(&absent);
+                vs.insert(pos, Voice::new(kind, *g.pick(&CONSTS[..])));
+                edit = format!("insert:{}", where_(pos, vs.len()));
+                labels.push("edit:insert".to_string());
+            }
+            1 => {
+                let pos = g.usize_below(vs.len());
+                vs.remove(pos);
+                edit = format!("delete:{}", where_(pos, vs.len() + 1));
+                labels.push("edit:delete".to_string());
+            }
+            2 => {
+                let pos = g.usize_below(vs.len());
+                let kind = *g.pick(&absent);
+                vs[pos] = Voice::new(kind, *g.pick(&CONSTS[..]));
+                edit = format!("replace:{}", where_(pos, vs.len()));
+                labels.push("edit:replace".to_string());
+            }
+            3 => {
+                let pos = g.usize_below(vs.len());
+                let c = *g.pick(&CONSTS[..]);
+                vs[pos].c_text = c.to_string();
+                vs[pos].c = c.parse().unwrap();
+                edit = "constant".into();
+                labels.push("edit:constant".to_string());
+            }
+            4 => {
+                let pos = g.usize_below(vs.len());
+                vs[pos].wrapped = !vs[pos].wrapped;
+                vs[pos].unchecked = true;
+                vs[pos].reset();
+                edit = "nest".into();
+                labels.push("edit:nest".to_string());
+            }
+            _ => {
+                fault = true;
+                edit = if g.coin() { "fault:syntax".into() } else { "fault:type".into() };
+                labels.push("edit:fault".to_string());
+            }
+        }
+        src = if fault { program(&vs_for_fault(&vs), Some(if edit.ends_with("syntax") { "syntax" } else { "type" })) } else { program(&vs, None) };
+    }
+    (steps, labels)
+}
+
+fn vs_for_fault(vs: &[Voice]) -> Vec<Voice> {
+    vs.to_vec()
+}
+
+fn where_(pos: usize, len: usize) -> &'static str {
+    if pos == 0 { "first" } else if pos + 1 >= len { "last" } else { "middle" }
+}
+
+struct Out {
+    fail: Option<(String, String)>,
+    nontrivial: bool,
+}
+
+fn check(steps: &[Step], backend: &str, tolerate_channels: bool, tolerated: &mut u64) -> Out {
+    let mut o = Out { fail: None, nontrivial: false };
+    let hist: Vec<(String, u64)> = steps.iter().map(|s| (s.src.clone(), s.run)).collect();
+    let inputs = Inputs { kind: 0, scale: 1.0 };
+    let res = if backend == "vm" { run_vm_history(&hist, &inputs, 0) } else { run_wasm_history(&hist, &inputs, 0) };
+    match res {
+        SwapOut::Ran { steps: got, swapped } => {
+            let mut t = 0u64;
+            for (k, (st, g)) in steps.iter().zip(got.iter()).enumerate() {
+                if st.fault && swapped.get(k).copied().unwrap_or(false) {
+                    o.fail = Some((format!("c07:{backend}:broken-edit-swapped-in"), format!("step {k}: an edit that must not compile ({}) was swapped in", st.edit)));
+                    return o;
+                }
+                if !st.fault && !swapped.get(k).copied().unwrap_or(true) {
+                    o.fail = Some((format!("c07:{backend}:valid-edit-rejected"), format!("step {k}: the edited program ({}) did not compile", st.edit)));
+                    return o;
+                }
+                for (i, (want, have)) in st.expect.iter().zip(g.iter()).enumerate() {
+                    if want.len() != have.len() && backend == "wasm" && tolerate_channels {
+                        *tolerated += 1;
+                    } else if want.len() != have.len() {
+                        o.fail = Some((format!("c07:{backend}:channel-count"), format!("step {k} ({}) sample {t}: {} channels, expected {}", st.edit, have.len(), want.len())));
+                        return o;
+                    }
+                    for ch in 0..want.len().min(have.len()) {
+                        if let Some(w) = want[ch] {
+                            if canon(w.to_bits()) != canon(have[ch]) {
+                                let kind = if st.fault { "state-changed-by-failed-edit" } else if k == 0 { "model-mismatch-before-any-edit" } else { "voice-discontinuity" };
+                                o.fail = Some((format!("c07:{backend}:{kind}:{}", st.edit.split(':').next().unwrap_or("")), format!("step {k} (after edit `{}`) sample {t} (offset {i}) channel {ch}: expected {w:?}, got {:?}", st.edit, f64::from_bits(have[ch]))));
+                                return o;
+                            }
+                        }
+                    }
+                    t += 1;
+                }
+            }
+            o.nontrivial = steps.len() >= 2;
+        }
+        SwapOut::Panic(stage, p) => {
+            o.fail = Some((format!("c07:{backend}:panic:{}:{}", stage.split('#').next().unwrap_or(""), p.signature()), format!("{stage}: {}", p.describe())));
+        }
+        SwapOut::SwapRefused(k, why) => o.fail = Some((format!("c07:{backend}:swap-refused"), format!("swap {k}: {why}"))),
+        SwapOut::Error(e) => o.fail = Some((format!("c07:{backend}:error"), e)),
+        SwapOut::FirstRejected => o.fail = Some((format!("c07:{backend}:voice-bank-rejected"), "the initial voice-bank program does not compile".into())),
+        SwapOut::NoIo => o.fail = Some((format!("c07:{backend}:no-io"), "no dsp I/O information".into())),
+    }
+    o
+}
+
+impl Prop for C07 {
+    fn id(&self) -> &'static str {
+        "C07"
+    }
+    fn spaces(&self, tier: Tier) -> Vec<Space> {
+        match tier {
+            Tier::Quick => vec![
+                Space { name: "vm", size: 1500, exhaustive: false, chunk: 50, case_timeout_s: 60.0, what: "voice-bank programs x histories of 2-5 run/edit steps on the VM" },
+                Space { name: "wasm", size: 300, exhaustive: false, chunk: 10, case_timeout_s: 120.0, what: "the same on the WASM runtime" },
+            ],
+            Tier::Thorough => vec![
+                Space { name: "vm", size: 40_000, exhaustive: false, chunk: 200, case_timeout_s: 60.0, what: "voice-bank programs x histories of 2-5 run/edit steps on the VM" },
+                Space { name: "wasm", size: 8_000, exhaustive: false, chunk: 40, case_timeout_s: 120.0, what: "the same on the WASM runtime" },
+            ],
+        }
+    }
+    fn run(&self, space: &str, _index: u64, g: &mut Gen, cx: &Cx) -> CaseResult {
+        let (steps, labels) = history(g);
+        let render = json!({"backend": space, "steps": steps.iter().map(|s| json!({"edit": s.edit, "run": s.run, "dsp": s.src.rsplit("fn dsp()").next().unwrap_or("")})).collect::<Vec<_>>()});
+        let hash = hash64(render.to_string().as_bytes());
+        if cx.dry {
+            let mut r = CaseResult::discard("dry");
+            r.render = Some(render);
+            return r;
+        }
+        let mut tolerated = 0u64;
+        let direct = json!({"backend": space, "steps": steps.iter().map(|s| json!({"src": s.src, "run": s.run, "edit": s.edit, "fault": s.fault, "expect": s.expect})).collect::<Vec<_>>()});
+        let o = check(&steps, space, !cx.strict && cx.excluded(KF_WASM_CHANNELS), &mut tolerated);
+        let mut r = match &o.fail {
+            Some((s, m)) => CaseResult::fail(hash, s.clone(), m.clone()),
+            None => CaseResult::held(hash),
+        };
+        r.classes = labels;
+        r.classes.push(format!("backend:{space}"));
+        if tolerated > 0 {
+            r.count(&format!("excluded_by_known_finding:{KF_WASM_CHANNELS}"), 1);
+            r.classes.push("known:wasm-channel-count".into());
+        }
+        r.nontrivial = o.nontrivial || r.is_fail();
+        if cx.render || r.is_fail() {
+            r.render = Some(render);
+        }
+        if r.is_fail() {
+            r.direct = Some(direct);
+        }
+        r
+    }
+    fn run_direct(&self, input: &Value, cx: &Cx) -> Option<CaseResult> {
+        let backend = input.get("backend")?.as_str()?.to_string();
+        let mut steps = vec![];
+        for s in input.get("steps")?.as_array()? {
+            let expect: Vec<Vec<Option<f64>>> = s.get("expect")?.as_array()?.iter().map(|row| row.as_array().map(|r| r.iter().map(|v| v.as_f64()).collect()).unwrap_or_default()).collect();
+            steps.push(Step { src: s.get("src")?.as_str()?.to_string(), run: s.get("run")?.as_u64()?, expect, edit: s.get("edit").and_then(|v| v.as_str()).unwrap_or("").to_string(), fault: s.get("fault").and_then(|v| v.as_bool()).unwrap_or(false) });
+        }
+        let hash = hash64(input.to_string().as_bytes());
+        let mut tolerated = 0u64;
+        let o = check(&steps, &backend, !cx.strict && cx.excluded(KF_WASM_CHANNELS), &mut tolerated);
+        let mut r = match &o.fail {
+            Some((s, m)) => CaseResult::fail(hash, s.clone(), m.clone()),
+            None => CaseResult::held(hash),
+        };
+        r.nontrivial = true;
+        r.render = Some(json!({"backend": backend, "steps": steps.iter().map(|s| json!({"edit": s.edit, "run": s.run, "dsp": s.src.rsplit("fn dsp()").next().unwrap_or("")})).collect::<Vec<_>>()}));
+        Some(r)
+    }
+    fn shrink_direct(&self, input: &Value) -> Vec<Value> {
+        // drop trailing steps
+        let mut out = vec![];
+        if let Some(st) = input.get("steps").and_then(|v| v.as_array()) {
+            if st.len() > 2 {
+                let mut v = input.clone();
+                v["steps"] = json!(st[..st.len() - 1].to_vec());
+                out.push(v);
+            }
+        }
+        out
+    }
+    fn rule(&self) -> String {
+        "Cases are histories over voice-bank programs: dsp returns 2-4 channels, each an independent stateful voice from a library of six (counter, tuple-valued self, two chained mems, delays of 5 and 9, a 3-tuple self feeding a delay) whose state layouts share no cell shape. A history is 2-5 steps `run r samples; edit; hot-swap`: insert / delete / replace a voice at any position, change a voice's constant, nest a voice one call deeper, or an edit that does not compile (syntax or type error). Oracle: a per-voice model in the harness predicts every channel of every sample — an untouched voice continues from its state, a new voice starts from zero (with `now` continuing), a failed compile changes nothing and is never swapped in; a re-nested voice is not predicted. Both runtimes. Non-trivial = at least one edit step was executed.".into()
+    }
+    fn assumptions(&self) -> Vec<String> {
+        vec!["voices with pairwise distinct cell shapes make 'untouched' unambiguous (C08 allows exchange among identical shapes)".into(), "the per-voice model is trusted: it is checked against the running program before any edit (signature model-mismatch-before-any-edit)".into()]
+    }
+    fn required_classes(&self, _tier: Tier) -> Vec<&'static str> {
+        vec!["edit:insert", "edit:delete", "edit:replace", "edit:constant", "edit:nest", "edit:fault", "backend:vm", "backend:wasm"]
+    }
 }
